@@ -6,13 +6,15 @@ from ..srules import parsing
 
 def main(ctx):
     ctx.explanation = (
-        "Engine S on the parser/printer pair: the parsita definitions are read as a grammar (nonterminal dependency "
-        "expression -> term -> factor -> {tensor, number, parentheses -> expression} gives the precedence levels; reduce and the "
-        "accumulator position in make_expression give left association; operator characters map to constructors); the "
-        "parenthesisation required for parse(deparse(t)) == t is computed from the levels and must be a subset of the isinstance "
-        "tuples in deparse; Format.deparse vs the two format alternatives; literal closure of str(int)/str(float) w.r.t. the "
-        "literal regexes (regex ASTs); exception escape of parser callbacks vs the except clauses of parse_*; rejection "
-        "coverage of Assignment.__post_init__ and sibling identity of variables()/index_participants()."
+        "Engine S on the parser/printer pair. The two parsita grammar classes are INTERPRETED from their source "
+        "(vf/srules/grammar.py: combinator tree, longest alternative, greedy repetition, whitespace option; semantic actions "
+        "evaluated abstractly with model constructors) and must agree, string by string, with the reference reading of the "
+        "property (precedence of * over + and -, left association, parentheses, literal kinds, name(index,...) tensors) on a corpus "
+        "that contains every text the printers produce plus probes and strings outside the language; deparse of every tree up to "
+        "depth 2 (+ depth-3 combs) and of every format up to order 3 is evaluated abstractly and re-read by the reference reading; "
+        "literal token converters are resolved and must be total on the token language; literal closure of str(int)/str(float) "
+        "w.r.t. the literal regexes (regex ASTs); exception escape of parser callbacks vs the except clauses of parse_*; "
+        "Assignment.__post_init__ evaluated abstractly over 1160 assignment structures (accept/reject and error class)."
     )
     ctx.assumptions = [
         "Python data-model facts: int(str) raises ValueError beyond the int-string digit limit; float(str) saturates to inf; str(inf) == 'inf'",
